@@ -35,13 +35,20 @@ ObsNoExtraDraw == Len(R.draws) = T                                           \* 
 ObsChanceOrder == /\ \A k \in 1..T : k <= Len(R.draws) => R.chance[k].sid = R.draws[k].sid   \* results in sampling order
                   /\ Cardinality({R.draws[k].sid : k \in 1..Len(R.draws)}) = Len(R.draws)    \* every sample a fresh object
                   /\ \A k \in 1..Len(R.draws) : R.draws[k].sid # 0                           \* never the input itself
+\* shuffle sampler: every sampled annotator has the durations and labels of one GROUND-TRUTH annotator
+SameSig(s1, s2) == Len(s1) = Len(s2) /\ \A i \in 1..Len(s1) : s1[i][2] = s2[i][2] /\ Abs(s1[i][1] - s2[i][1]) <= 1
 ObsSampleValid == \A k \in 1..Len(R.draws) :
                       /\ R.draws[k].nunits >= 1
                       /\ R.draws[k].nann = R.ngt
                       /\ R.sampler = "stat" => R.draws[k].anns = [x \in 1..R.ngt |-> x]
-AlgoFor(e) == IF R.mode = "soft" THEN "soft" ELSE IF R.mode = "fast" /\ e.bwsinf = 0 THEN "fast" ELSE "best"
+                      /\ R.sampler = "shuffle" => \A a \in 1..Len(R.draws[k].sigs) :
+                                                     \E g \in 1..Len(R.gtsigs) : SameSig(R.draws[k].sigs[a], R.gtsigs[g])
+\* fast mode: the windowed algorithm with the window size measured on the INPUT (samples inherit it), the exact one when
+\* windowing was estimated to be disadvantageous (window size infinite)
+AlgoFor(e) == IF R.mode = "soft" THEN "soft" ELSE IF R.mode = "fast" /\ R.best.bwsinf = 0 THEN "fast" ELSE "best"
 ClassFor == IF R.mode = "soft" THEN "SoftAlignment" ELSE "Alignment"
 ObsMode == /\ \A k \in 1..T : R.chance[k].algo = AlgoFor(R.chance[k]) /\ R.chance[k].cls = ClassFor
+           /\ R.mode = "fast" => \A k \in 1..T : R.chance[k].bwsinf = R.best.bwsinf
            /\ R.best.algo = AlgoFor(R.best) /\ R.best.cls = ClassFor
            /\ R.best.sid = 0                                                 \* observed disorder: the INPUT's alignment
 ObsObserved == R.observed = R.best.dis
